@@ -425,6 +425,33 @@ fn witnesses() -> Vec<(&'static str, Expr, Vec<Interval>)> {
         let r = ctx.and(m, 2.0).unwrap();
         v.push(("W3 and(x*exp(y),2) on x=[0,0], y=[0,1e20]", Expr { ctx, roots: vec![r], n_vars: 2, text: vec!["t0 = Exp(v1); t1 = Mul(v0, t0); t2 = And(t1, 2.0); outputs = [t2]".into()] }, vec![Interval::new(0.0, 0.0), Interval::new(0.0, 1.0e20)]));
     }
+    {
+        // W4 (after seeded change C04-m5): the same node feeds two outputs with more outputs in between than the smallest register
+        // budget, so re-allocation into 3 registers must spill and restore an output's argument: [f, min(x,y), x-y, x+y, f]
+        let mut ctx = Context::new();
+        let x = ctx.var(var_n(0));
+        let y = ctx.var(var_n(1));
+        let xy = ctx.mul(x, y).unwrap();
+        let f = ctx.add(xy, 1.0).unwrap();
+        let a = ctx.min(x, y).unwrap();
+        let b = ctx.sub(x, y).unwrap();
+        let c = ctx.add(x, y).unwrap();
+        v.push(("W4 [f, min(x,y), x-y, x+y, f], f = x*y+1, on x=[0,1], y=[2,3]", Expr { ctx, roots: vec![f, a, b, c, f], n_vars: 2, text: vec!["t0 = Mul(v0, v1); t1 = Add(t0, 1.0); t2 = Min(v0, v1); t3 = Sub(v0, v1); t4 = Add(v0, v1); outputs = [t1, t2, t3, t4, t1]".into()] }, vec![Interval::new(0.0, 1.0), Interval::new(2.0, 3.0)]));
+    }
+    {
+        // W5: seven outputs, two repeated nodes, choices shared between outputs
+        let mut ctx = Context::new();
+        let x = ctx.var(var_n(0));
+        let y = ctx.var(var_n(1));
+        let z = ctx.var(var_n(2));
+        let m = ctx.min(x, y).unwrap();
+        let g = ctx.add(m, z).unwrap();
+        let a = ctx.max(x, z).unwrap();
+        let b = ctx.mul(y, z).unwrap();
+        let c = ctx.sub(m, a).unwrap();
+        let d = ctx.neg(b).unwrap();
+        v.push(("W5 [g, a, b, c, d, g, a] with g = min(x,y)+z, a = max(x,z), on x=[0,1], y=[2,3], z=[-2,-1]", Expr { ctx, roots: vec![g, a, b, c, d, g, a], n_vars: 3, text: vec!["t0 = Min(v0, v1); t1 = Add(t0, v2); t2 = Max(v0, v2); t3 = Mul(v1, v2); t4 = Sub(t0, t2); t5 = Neg(t3); outputs = [t1, t2, t3, t4, t5, t1, t2]".into()] }, vec![Interval::new(0.0, 1.0), Interval::new(2.0, 3.0), Interval::new(-2.0, -1.0)]));
+    }
     v
 }
 
@@ -456,7 +483,7 @@ pub fn simplify_sem(thorough: bool, seed: u64) -> Report {
         run_witnesses(&mut cx);
     }
     r.space = format!(
-        "{rounds} seeded random expressions built through Context (seed {seed}): 1..=3 variables, 1..=12 steps of which about half are min/max/and/or (operands: earlier values incl. shared subexpressions, or immediates from {{0,-0,1,-1,0.5,2,-2.5,3,1e20,0.25}}, constant on either side) and the rest any of the other 18 unary / 8 binary opcodes, 1..=3 outputs.  For each: {n_points} random points over {{0,-0,+-1,0.5,-2.5,3,NaN,inf,1e20,0.25,-0.75}} with VmPointEval and JitPointEval, and {n_boxes} random boxes (bounds from {{-2.5,-1,-0,0,0.25,0.5,1,3,1e20}}, one in five sides may have an infinite bound, one in four is degenerate) with VmIntervalEval and JitIntervalEval, then chains of up to 3 simplifications over nested sub-boxes (half boxes / degenerate sides), plus a point trace inside the box.  Every returned trace is fed to simplify into budgets 255, {JN} and 3 (Function::simplify and simplify_with): (a) no panic / Err, (b) at the traced point, or at every sample point of the box with finite coordinates (differences at points with an infinite/NaN coordinate are only counted in the notes; likewise finite points where a NaN reaches a Rand/Mix op (NaN payload bits are outside the property's equality) or where an atan2 sees two zeros (C03's exclusion); failure classes: `value-*` (no special circumstance), `*-zero-into-rand-mix` (a zero reaches a Rand/Mix op in the original run), `*-nan-intermediate` (the original run has a NaN intermediate at a finite point)) (all corner/midpoint/interior-grid combinations if <= 80, else the corners + 56 random combinations), the simplified function's outputs are bit-identical (NaN=NaN) to the ORIGINAL function's under the VM point evaluator (all budgets) and, for the budget-{JN} result, under the JIT point evaluator, (c) output_count and vars preserved, choice_count == number of choice ops in the simplified SSA tape, simplified SSA tape well-formed (strict); {} simplify calls checked.  Plus 3 fixed witness expressions (W1-W3, box traces only) that pin the defect families found by the search",
+        "{rounds} seeded random expressions built through Context (seed {seed}): 1..=3 variables, 1..=12 steps of which about half are min/max/and/or (operands: earlier values incl. shared subexpressions, or immediates from {{0,-0,1,-1,0.5,2,-2.5,3,1e20,0.25}}, constant on either side) and the rest any of the other 18 unary / 8 binary opcodes, 1..=3 outputs.  For each: {n_points} random points over {{0,-0,+-1,0.5,-2.5,3,NaN,inf,1e20,0.25,-0.75}} with VmPointEval and JitPointEval, and {n_boxes} random boxes (bounds from {{-2.5,-1,-0,0,0.25,0.5,1,3,1e20}}, one in five sides may have an infinite bound, one in four is degenerate) with VmIntervalEval and JitIntervalEval, then chains of up to 3 simplifications over nested sub-boxes (half boxes / degenerate sides), plus a point trace inside the box.  Every returned trace is fed to simplify into budgets 255, {JN} and 3 (Function::simplify and simplify_with): (a) no panic / Err, (b) at the traced point, or at every sample point of the box with finite coordinates (differences at points with an infinite/NaN coordinate are only counted in the notes; likewise finite points where a NaN reaches a Rand/Mix op (NaN payload bits are outside the property's equality) or where an atan2 sees two zeros (C03's exclusion); failure classes: `value-*` (no special circumstance), `*-zero-into-rand-mix` (a zero reaches a Rand/Mix op in the original run), `*-nan-intermediate` (the original run has a NaN intermediate at a finite point)) (all corner/midpoint/interior-grid combinations if <= 80, else the corners + 56 random combinations), the simplified function's outputs are bit-identical (NaN=NaN) to the ORIGINAL function's under the VM point evaluator (all budgets) and, for the budget-{JN} result, under the JIT point evaluator, (c) output_count and vars preserved, choice_count == number of choice ops in the simplified SSA tape, simplified SSA tape well-formed (strict); {} simplify calls checked.  Plus 5 fixed witness expressions (box traces only): W1-W3 pin the defect families found by the search, W4-W5 are functions with 5 and 7 outputs in which the same node feeds two outputs (more outputs in between than the smallest budget has registers)",
         simplifications.load(std::sync::atomic::Ordering::Relaxed));
     r.distinct = r.cases;
     r.exhaustive = false;
